@@ -254,13 +254,24 @@ def invariant(H, ref: RefStore, fails, ctx):
         fails.append(Fail("incidence", f"{ctx}: species={so} edges={eo} dense={mat.tolist()} sparse={sorted(mp.items())}", "products - reactants"))
 
 
-def build(hist, reduced=False):
+def observe(H):
+    """Every read-only query of the store (so that lazily filled caches, if any, are filled)."""
+    so, eo, mat = H.incidence_matrix(sparse=False)
+    so2, eo2, mp = H.incidence_matrix(sparse=True)
+    return (tuple(H.species_list()), tuple(e.id for e in sorted(H.edge_list(), key=lambda e: e.id)), tuple(so), tuple(eo), mat.tolist(), tuple(sorted(mp.items())), len(H), repr(H))
+
+
+def build(hist, reduced=False, observing=False):
     from synkit.CRN.Hypergraph.hypergraph import CRNHyperGraph
 
     H, ref = CRNHyperGraph(), RefStore()
     sink = []
     for op in hist:
+        if observing:
+            observe(H)
         H, st = apply_op(H, ref, tuple(op), sink)
+    if observing:
+        observe(H)
     return H, ref
 
 
@@ -298,6 +309,14 @@ def expand(hist):
                     fails.append(Fail("copy_diverges", f"{op}: copy reaches a different state", "same state as the original"))
                 if snap(H) != after:
                     fails.append(Fail("original_affected", f"{op}: original changed when the copy was edited", "unchanged"))
+            # histories interleaved with read-only queries reach the same state and answer the queries identically
+            Hq, refq = build(hist, REDUCED, observing=True)
+            fq = []
+            Hq, stq = apply_op(Hq, refq, op, fq)
+            if stq != "ok" or snap(Hq) != after or observe(Hq) != observe(H):
+                fails.append(Fail("query_dependent", f"{op}: state/answers differ when read-only queries were interleaved", "queries have no effect"))
+            else:
+                invariant(Hq, refq, fails, f"(queried history) after {op}")
             if not fails:
                 key = hashlib.sha1(repr((after, tuple(sorted(ref.ever_kept)))).encode()).hexdigest()[:20]
         elif st == "refused":
